@@ -53,15 +53,28 @@ func newUnivFor(p *Program, cs *ContractSet) *Univ {
 	sort.Strings(pkgs)
 	for _, pkg := range pkgs {
 		for _, chunk := range cs.Preludes[pkg] {
+			// a prelude whose Go types belong to packages that are not loaded for this check is skipped
+			skip := false
+			for _, line := range strings.Split(chunk, "\n") {
+				l := strings.TrimSpace(line)
+				for _, d := range []string{";;@ need-type ", ";;@ need-marshal "} {
+					if strings.HasPrefix(l, d) {
+						if p.resolveType(strings.TrimSpace(strings.TrimPrefix(l, d))) == nil {
+							skip = true
+						}
+					}
+				}
+			}
+			if skip {
+				continue
+			}
 			for _, line := range strings.Split(chunk, "\n") {
 				l := strings.TrimSpace(line)
 				if strings.HasPrefix(l, ";;@ need-type ") {
-					tp := strings.TrimSpace(strings.TrimPrefix(l, ";;@ need-type "))
-					t := p.resolveType(tp)
-					if t == nil {
-						fatalf("prelude needs unknown type %s", tp)
-					}
-					u.SortOf(t)
+					u.SortOf(p.resolveType(strings.TrimSpace(strings.TrimPrefix(l, ";;@ need-type "))))
+				}
+				if strings.HasPrefix(l, ";;@ need-marshal ") {
+					u.MarshalFn(u.SortOf(p.resolveType(strings.TrimSpace(strings.TrimPrefix(l, ";;@ need-marshal ")))))
 				}
 			}
 			u.AddPrelude(chunk)
@@ -100,7 +113,9 @@ func VerifyFunction(p *Program, cs *ContractSet, key string, ct *Contract, maxPa
 	ex.entrySt = st
 	for _, gs := range cs.Ghosts {
 		for _, g := range gs {
-			st.ghost[g.Name] = u.Const("g0."+g.Name, g.Sort)
+			if u.sortKnown(g.Sort) {
+				st.ghost[g.Name] = u.Const("g0."+g.Name, g.Sort)
+			}
 		}
 	}
 	names := ex.paramNames(fn, ct)
@@ -500,4 +515,23 @@ func (o *Obligation) OK() bool {
 		return o.Result.Status != "unsat" && o.Result.Status != "error"
 	}
 	return o.Result.Status == "unsat"
+}
+
+// sortKnown reports whether every sort symbol mentioned in a sort expression is declared.
+func (u *Univ) sortKnown(sort string) bool {
+	decl := u.declaredSorts()
+	for _, tok := range strings.FieldsFunc(sort, func(r rune) bool { return r == '(' || r == ')' || r == ' ' }) {
+		switch tok {
+		case "Array", "Slice", "Opt", "Int", "Bool", "Str", "Iface", "Ref", "Fn", "Ctx", "Float", "SdkInt", "SdkDec", "Time", "BytesV":
+			continue
+		}
+		if _, ok := u.structs[tok]; ok {
+			continue
+		}
+		if decl[tok] {
+			continue
+		}
+		return false
+	}
+	return true
 }
